@@ -16,7 +16,7 @@ use crate::oracle::page::total_len;
 use crate::oracle::vsign::*;
 use crate::repr::M;
 
-pub const RULE_C10: &str = "reply scripts over a 46-symbol alphabet (13 state reports x own/foreign address, 6 acknowledgements x own/foreign address - which includes wrong-operation acknowledgements -, no reply, goodbye, a state query / pixels-complete / goodbye carrying the foreign address, an unknown frame, an echo of the message just sent, bus error - materialised depending on the job as a plain error, io::Error of 4 kinds, FrameError::Io, the frame decoder's BadChecksum / InvalidFrame / FrameDataMismatch, or a boxed SignError::UnexpectedResponse / SignError::Bus) enumerated exhaustively by systematic re-execution: the operation is re-run on a fresh scripted bus and the script is extended by every symbol whenever the controller asks for one more reply, to the natural end of configure, configure_if_needed, send_pages, show_loaded_page, load_next_page and shut_down (page-switch polling cut at depth 7 quick / 9 thorough), for several sign types and (own, foreign) address pairs; plus proptest random scripts (70 % 'continue' replies) for larger sign types and lists of 0-3 pages (a quarter of them with pages of sizes other than the sign's own, mixed in one list), also as sequences of 2..5 operations on ONE Sign object (each operation's slice of the conversation judged on its own). At every node the emitted message sequence and - at leaves - the outcome class are compared with a reference controller simulation. Non-trivial = a script with at least one reply that is not the happy-path reply; distinct by hash of (operation, configuration, script)";
+pub const RULE_C10: &str = "reply scripts over a 47-symbol alphabet (13 state reports x own/foreign address, 6 acknowledgements x own/foreign address - which includes wrong-operation acknowledgements -, no reply, goodbye, a state query / pixels-complete / goodbye carrying the foreign address, an unknown frame, an echo of the message just sent, the continuing reply disguised as a hand-built unknown-frame wrapper of its own frame, bus error - materialised depending on the job as a plain error, io::Error of 4 kinds, FrameError::Io, the frame decoder's BadChecksum / InvalidFrame / FrameDataMismatch, or a boxed SignError::UnexpectedResponse / SignError::Bus) enumerated exhaustively by systematic re-execution: the operation is re-run on a fresh scripted bus and the script is extended by every symbol whenever the controller asks for one more reply, to the natural end of configure, configure_if_needed, send_pages, show_loaded_page, load_next_page and shut_down (page-switch polling cut at depth 7 quick / 9 thorough), for several sign types and (own, foreign) address pairs; plus proptest random scripts (70 % 'continue' replies) for larger sign types and lists of 0-3 pages (a quarter of them with pages of sizes other than the sign's own, mixed in one list), also as sequences of 2..5 operations on ONE Sign object (each operation's slice of the conversation judged on its own). At every node the emitted message sequence and - at leaves - the outcome class are compared with a reference controller simulation. Non-trivial = a script with at least one reply that is not the happy-path reply; distinct by hash of (operation, configuration, script)";
 pub const RULE_C11: &str = "the same conversations as C10 (exhaustive reply-script trees by systematic re-execution, random scripts, several addresses and sign types) judged without the reference conversation, by invariants on the transcript: I1 success only after this sign's 'received' report concluded the last transfer attempt, I2 fail-stop after a bus error or a reply the protocol does not allow at that point (with the matching error class), I3 at most three transfer attempts and retries only after this sign's 'failed' report, I4 every emitted addressed message carries the controller's address, I5 reports from another address are never taken as this sign's. Non-trivial = a script with at least one non-happy-path reply; distinct by hash";
 pub const ASSUMPTIONS_C10: &[&str] = &["the reference controller in oracle/controller.rs is a correct reading of the documented protocol (doc comments of configure, configure_if_needed, send_pages, load_next_page, show_loaded_page, shut_down and of the Message kinds)"];
 pub const ASSUMPTIONS_C11: &[&str] = &["the invariants are keyed on local context only (the previous exchange), so they do not depend on the reference conversation of C10"];
@@ -108,6 +108,15 @@ impl SignBus for ScriptBus {
         }
         let reply = match self.choices.get(idx) {
             Some(Choice::Symbol(Reply::Echo)) => Reply::Msg(m.clone()),
+            Some(Choice::Symbol(Reply::Disguised)) => match happy_reply(self.own, &m, 0, self.last_transfer_op, after_count) {
+                Reply::Msg(h) => {
+                    let (addr, ty, data) = h.ref_frame();
+                    Reply::Msg(M::Unknown { addr, ty, data })
+                }
+                // nothing to disguise where no reply is due: an unknown frame (which ends the conversation, so that the
+                // script tree does not fork a second time at every silent step)
+                _ => Reply::Msg(M::Unknown { addr: self.own, ty: 0x45, data: vec![] }),
+            },
             Some(Choice::Symbol(r)) => r.clone(),
             Some(Choice::Happy(v)) => happy_reply(self.own, &m, *v, self.last_transfer_op, after_count),
             None => match self.on_exhausted {
@@ -127,7 +136,7 @@ impl SignBus for ScriptBus {
             Reply::Msg(r) => Ok(Some(r.to_message())),
             Reply::None => Ok(None),
             Reply::BusError => Err(make_bus_error(self.bus_error_kind, "scripted bus error")),
-            Reply::Echo => unreachable!("resolved above"),
+            Reply::Echo | Reply::Disguised => unreachable!("resolved above"),
         }
     }
 }
@@ -369,6 +378,7 @@ pub fn alphabet(own: u16, foreign: u16) -> Vec<Reply> {
     v.push(Reply::Msg(M::Unknown { addr: own, ty: 0x4, data: vec![0x07, 0x00] }));
     v.push(Reply::BusError);
     v.push(Reply::Echo);
+    v.push(Reply::Disguised);
     v
 }
 
@@ -495,6 +505,7 @@ fn choice_strategy(own: u16) -> impl Strategy<Value = Choice> {
         1 => Just(Choice::Symbol(Reply::None)),
         1 => Just(Choice::Symbol(Reply::BusError)),
         1 => Just(Choice::Symbol(Reply::Echo)),
+        1 => Just(Choice::Symbol(Reply::Disguised)),
         1 => (foreign2, 0u8..5, 0u8..6).prop_map(|(a, k, o)| Choice::Symbol(Reply::Msg(match k {
             0 => M::Hello(a),
             1 => M::Query(a),
